@@ -234,6 +234,53 @@ func c09(e *Env) {
 			}
 		}
 	}
+	// many prepared system statements on one connection: however many a client prepares, the
+	// EXECUTE of each of them is answered by the proxy (none is forgotten and then forwarded)
+	if !w.Stopped() && f.clients[0].Connected() && c.Choose("manyprepared", 3) == 2 {
+		cl := f.clients[0]
+		type sp struct {
+			id, rm []byte
+			text   string
+		}
+		var sps []sp
+		n := 20 + c.Choose("manyn", 60)
+		for i := 0; i < n && !w.Stopped(); i++ {
+			tok := w.NewToken()
+			text := []string{"SELECT * FROM system.local WHERE key = '" + tok + "'", "SELECT key, rpc_address FROM system.peers WHERE key = '" + tok + "'", "SELECT * FROM system.peers_v2 WHERE key = '" + tok + "'"}[c.Choose("manytab", 3)]
+			r := cl.Send("prepare", tok, &message.Prepare{Query: text}, nil)
+			if !w.RunUntil(func() bool { return len(r.Replies) > 0 }, 5*time.Minute) {
+				return
+			}
+			if pr, ok := replyMsg(r).(*message.PreparedResult); ok {
+				sps = append(sps, sp{pr.PreparedQueryId, pr.ResultMetadataId, text})
+			}
+			if len(w.Attempts[tok]) > 0 {
+				w.Violate("c09-route", "system-read-forwarded", "PREPARE of "+text+" reached a backend")
+				return
+			}
+		}
+		for k := 0; k < 6 && len(sps) > 0 && !w.Stopped(); k++ {
+			p := sps[c.Choose("manyexec", len(sps))]
+			if k == 0 {
+				p = sps[0]
+			}
+			tok2 := w.NewToken()
+			ex := cl.Send("execute", tok2, world.ExecMsg(p.id, p.rm, tok2, primitive.ConsistencyLevelOne), nil)
+			if !w.RunUntil(func() bool { return len(ex.Replies) > 0 }, 5*time.Minute) {
+				return
+			}
+			w.Quiesce()
+			if len(w.Attempts[tok2]) > 0 {
+				w.Violate("c09-route", "system-read-forwarded", fmt.Sprintf("EXECUTE of the locally prepared %q reached a backend after %d system statements had been prepared on the connection", p.text, len(sps)))
+				return
+			}
+			if _, isErr := replyMsg(ex).(message.Error); isErr && !strings.Contains(p.text, "peers_v2") {
+				w.Violate("c09-route", "prepared-system-read-failed", fmt.Sprintf("EXECUTE of the locally prepared %q was answered with %v", p.text, replyMsg(ex)))
+				return
+			}
+		}
+		e.Res.Stats["probe.c09.many_prepared_system_statements"]++
+	}
 	// token-less spellings: the backend must never see a client-originated read of its system tables
 	if !w.Stopped() {
 		before := w.Stats["backend.system_local"] + w.Stats["backend.system_peers"]
